@@ -16,7 +16,8 @@
 From Coq Require Import List Arith Bool.
 Import ListNotations.
 
-Inductive resp := RespFull (outs : list bool) | RespVarErr.
+(* data assembled from the outcomes of all resolvers, and eCtx.Errors: the resolvers that failed, in order *)
+Inductive resp := RespFull (outs : list bool) (errs : list nat) | RespVarErr.
 Inductive ret := RetResp (r : resp) | RetCtx.
 
 Inductive cpc := CIdle | CInit | CSelect | CReturned (r : ret).
@@ -39,9 +40,19 @@ Record st := mk {
   done : bool;                (* ctx.Done() is ready *)
   vgate : option bool;        (* ParseValue gate: opened? with which result *)
   gates : list bool;          (* outcomes of the resolver gates opened so far *)
-  log : list bool }.          (* outcomes consumed by the background goroutine *)
+  log : list bool;            (* outcomes consumed by the background goroutine (the data under construction) *)
+  errs : list nat }.          (* eCtx.Errors: indices of the resolvers that returned an error so far *)
 
-Definition init : st := mk CIdle BNone [] false None [] [].
+Definition init : st := mk CIdle BNone [] false None [] [] [].
+
+(* the errors a complete response owes: one per failed resolver, in order *)
+Fixpoint errors_from (k : nat) (outs : list bool) : list nat :=
+  match outs with
+  | [] => []
+  | true :: r => errors_from (S k) r
+  | false :: r => k :: errors_from (S k) r
+  end.
+Definition errors_of (outs : list bool) : list nat := errors_from 0 outs.
 
 Section Lts.
 Variable n : nat.      (* number of resolvers of the request *)
@@ -49,40 +60,40 @@ Variable cap : nat.    (* capacity of the result channel *)
 
 Definition step_fn (s : st) (l : label) : option st :=
   match l with
-  | LCall => match cp s with CIdle => Some (mk CInit (bp s) (ch s) (done s) (vgate s) (gates s) (log s)) | _ => None end
-  | LDone => Some (mk (cp s) (bp s) (ch s) true (vgate s) (gates s) (log s))
-  | LOpenVars ok => match vgate s with None => Some (mk (cp s) (bp s) (ch s) (done s) (Some ok) (gates s) (log s)) | _ => None end
-  | LOpen o => if length (gates s) <? n then Some (mk (cp s) (bp s) (ch s) (done s) (vgate s) (gates s ++ [o]) (log s)) else None
-  | LSpawn => match cp s, bp s with CInit, BNone => Some (mk CSelect BVars (ch s) (done s) (vgate s) (gates s) (log s)) | _, _ => None end
+  | LCall => match cp s with CIdle => Some (mk CInit (bp s) (ch s) (done s) (vgate s) (gates s) (log s) (errs s)) | _ => None end
+  | LDone => Some (mk (cp s) (bp s) (ch s) true (vgate s) (gates s) (log s) (errs s))
+  | LOpenVars ok => match vgate s with None => Some (mk (cp s) (bp s) (ch s) (done s) (Some ok) (gates s) (log s) (errs s)) | _ => None end
+  | LOpen o => if length (gates s) <? n then Some (mk (cp s) (bp s) (ch s) (done s) (vgate s) (gates s ++ [o]) (log s) (errs s)) else None
+  | LSpawn => match cp s, bp s with CInit, BNone => Some (mk CSelect BVars (ch s) (done s) (vgate s) (gates s) (log s) (errs s)) | _, _ => None end
   | LRetCtx => match cp s, done s with
-               | CSelect, true => Some (mk (CReturned RetCtx) (bp s) (ch s) true (vgate s) (gates s) (log s))
+               | CSelect, true => Some (mk (CReturned RetCtx) (bp s) (ch s) true (vgate s) (gates s) (log s) (errs s))
                | _, _ => None
                end
   | LRetRes => match cp s, ch s with
-               | CSelect, r :: rest => Some (mk (CReturned (RetResp r)) (bp s) rest (done s) (vgate s) (gates s) (log s))
+               | CSelect, r :: rest => Some (mk (CReturned (RetResp r)) (bp s) rest (done s) (vgate s) (gates s) (log s) (errs s))
                | _, _ => None
                end
   | LVars => match bp s, vgate s with
-             | BVars, Some true => Some (mk (cp s) (BRun 0) (ch s) (done s) (vgate s) (gates s) (log s))
-             | BVars, Some false => Some (mk (cp s) (BFinish RespVarErr) (ch s) (done s) (vgate s) (gates s) (log s))
+             | BVars, Some true => Some (mk (cp s) (BRun 0) (ch s) (done s) (vgate s) (gates s) (log s) (errs s))
+             | BVars, Some false => Some (mk (cp s) (BFinish RespVarErr) (ch s) (done s) (vgate s) (gates s) (log s) (errs s))
              | _, _ => None
              end
   | LResolve => match bp s with
                 | BRun k => if k <? n then
                               match nth_error (gates s) k with
-                              | Some o => Some (mk (cp s) (BRun (S k)) (ch s) (done s) (vgate s) (gates s) (log s ++ [o]))
+                              | Some o => Some (mk (cp s) (BRun (S k)) (ch s) (done s) (vgate s) (gates s) (log s ++ [o]) (if o then errs s else errs s ++ [k]))
                               | None => None
                               end
                             else None
                 | _ => None
                 end
   | LAssemble => match bp s with
-                 | BRun k => if k =? n then Some (mk (cp s) (BFinish (RespFull (log s))) (ch s) (done s) (vgate s) (gates s) (log s)) else None
+                 | BRun k => if k =? n then Some (mk (cp s) (BFinish (RespFull (log s) (errs s))) (ch s) (done s) (vgate s) (gates s) (log s) (errs s)) else None
                  | _ => None
                  end
   | LSend => match bp s with
              | BFinish r => if length (ch s) <? cap
-                            then Some (mk (cp s) BExit (ch s ++ [r]) (done s) (vgate s) (gates s) (log s))
+                            then Some (mk (cp s) BExit (ch s ++ [r]) (done s) (vgate s) (gates s) (log s) (errs s))
                             else None
              | _ => None
              end
@@ -130,7 +141,7 @@ Fixpoint list_eqb {A} (eqb : A -> A -> bool) (a b : list A) : bool :=
   end.
 Definition resp_eqb (a b : resp) : bool :=
   match a, b with
-  | RespFull x, RespFull y => list_eqb Bool.eqb x y
+  | RespFull x e, RespFull y f => list_eqb Bool.eqb x y && list_eqb Nat.eqb e f
   | RespVarErr, RespVarErr => true
   | _, _ => false
   end.
@@ -157,7 +168,8 @@ Definition ob_eqb (a b : option bool) : bool :=
   match a, b with Some x, Some y => Bool.eqb x y | None, None => true | _, _ => false end.
 Definition st_eqb (a b : st) : bool :=
   cpc_eqb (cp a) (cp b) && bpc_eqb (bp a) (bp b) && list_eqb resp_eqb (ch a) (ch b) && Bool.eqb (done a) (done b) &&
-  ob_eqb (vgate a) (vgate b) && list_eqb Bool.eqb (gates a) (gates b) && list_eqb Bool.eqb (log a) (log b).
+  ob_eqb (vgate a) (vgate b) && list_eqb Bool.eqb (gates a) (gates b) && list_eqb Bool.eqb (log a) (log b) &&
+  list_eqb Nat.eqb (errs a) (errs b).
 Fixpoint dedup (l : list st) : list st :=
   match l with
   | [] => []
